@@ -26,3 +26,12 @@ REG.contract('C04', N, 'NinjaBuild.add_rule', params={'self': BuildS, 'rule': Ru
              ensures=['rule.name in new(self).ruledict', 'len(new(self).rules) == len(self.rules) + 1'],
              raises={'MesonException': 'rule.name in self.ruledict'}, modifies=['self.rules', 'self.ruledict'], floor=4,
              note='rule names are unique')
+
+# ---- every build statement uses a defined rule: a rule is written in its plain flavour iff a statement uses it without a
+# response file, and in its _RSP flavour iff a statement uses it with one — independently of each other
+RuleCnt = Struct('NinjaRule', 'mesonbuild.backend.ninjabackend:NinjaRule', refcount=Int, rsprefcount=Int)
+REG.contract('C04', N, 'NinjaRule.write.<locals>.rule_iter', params={'self': RuleCnt}, requires=['self.refcount >= 0', 'self.rsprefcount >= 0'],
+             ensures=["('' in __yield__) == (self.refcount > 0)", "('_RSP' in __yield__) == (self.rsprefcount > 0)",
+                      "len(__yield__) == (1 if self.refcount > 0 else 0) + (1 if self.rsprefcount > 0 else 0)"],
+             yields=Str, floor=3,
+             note='the flavours of a rule that are written are exactly the flavours that build statements refer to')
